@@ -116,3 +116,21 @@ package check
 //@   ensures[reference-resolution-change-republishes] len(needReferFileMap) > 0 ==> changeDiagnostic
 //@   ensures[any-analysis-change-republishes] (changeFlag || handleAllFlag) ==> changeDiagnostic
 //@ end
+
+// ---- C06 / C11: the per-file worker of the cross-file reference search ----
+// Every file is analysed into a result buffer of its own: empty when the analysis starts, bound to that file
+// and to the target of the request, and what is sent back is exactly that buffer under that file's name.
+//@ func GoRoutineFourFile
+//@   props C06 C11
+//@   at call handleFindferences#0 before assert[each-file-gets-an-empty-result-buffer] arg1 != nil && len(arg1.FindLocVec) == 0 && streq(arg1.StrFile, request.strFile)
+//@   at call handleFindferences#0 before assert[buffer-is-bound-to-the-request-target] arg0 == request.allProject && hits("SetFindReferenceInfo#0") == hits("CreateReferenceFileResult#0")
+//@   loop 0 invariant hits("SetFindReferenceInfo#0") == hits("CreateReferenceFileResult#0")
+//@   unchecked pre:SetFindReferenceInfo.a-target-comes-with-its-name#0 the request arrives over a channel (not modelled) from handleAllFilesReference, which copies the name list of a valid cursor expression (GetVarStruct, ValidFlag) into it
+//@ end
+
+// recvFourFile: the locations a worker found are attributed to the file the worker names; only the
+// declaration to be ignored is filtered out.
+//@ func recvFourFile
+//@   props C06 C11
+//@   at call append#0 before assert[location-is-attributed-to-the-workers-file] streq(arg1[0].StrFile, fourFileChan.strFile) && arg1[0].Loc == oneLoc
+//@ end
